@@ -48,9 +48,11 @@ def rule_agree(cx, rid, libs_only=False):
     def lcd(kind, i):
         if kind == "i2c":
             return cls["LCDDecl"](name=f"l{i}", cols=16, rows=2, interface="i2c", i2c_addr=39 + i)
+        if kind == "i2c@0":      # the general-call address 0 is falsy: the interface field, not the address, decides the library
+            return cls["LCDDecl"](name=f"l{i}", cols=16, rows=2, interface="i2c", i2c_addr=0)
         return cls["LCDDecl"](name=f"l{i}", cols=16, rows=2, interface="parallel", rs=12, en=11, d4=5, d5=4, d6=3, d7=2, backlight_pin=(10 if i else None))
 
-    lcd_sets = [(), ("parallel",), ("i2c",), ("parallel", "i2c"), ("i2c", "parallel"), ("parallel", "parallel"), ("i2c", "i2c")]
+    lcd_sets = [(), ("parallel",), ("i2c",), ("parallel", "i2c"), ("i2c", "parallel"), ("parallel", "parallel"), ("i2c", "i2c"), ("i2c@0",), ("parallel", "i2c@0")]
     servo_sets = [((), ()), ((0,), ()), ((), (0,)), ((0, 1), ()), ((0,), (1,)), ((), (0, 1))]
     noise = [cls["LedDecl"](name="led", pin=13), cls["LedOn"](name="led")]
 
@@ -89,7 +91,7 @@ def rule_agree(cx, rid, libs_only=False):
                     want.add("Servo")
                 if "parallel" in lcds:
                     want.add("LiquidCrystal")
-                if "i2c" in lcds:
+                if "i2c" in lcds or "i2c@0" in lcds:
                     want.add("LiquidCrystal_I2C")
                 n += 1
                 hdr_libs = [h[:-2] for h in headers if h != "Wire.h"]
@@ -112,6 +114,33 @@ def rule_agree(cx, rid, libs_only=False):
                     r.fail("includes/Wire-with-I2C", (em, em.func("emit")), f"{label}: Wire.h included {headers.count('Wire.h')} times")
                 if ok:
                     r.ok(label)
+    # a device declared inside a branch or an exception handler still needs its library: the collector walks every node kind
+    for holder in ("if-branch", "elif-branch", "else", "try-body", "except-handler", "while-body", "function-body"):
+        sv = cls["ServoDecl"](name="s0", pin=9)
+        S_ = cls["Sleep"](ms=1)
+        CB = cls["ConditionalBranch"]
+        fns_ = []
+        if holder == "if-branch":
+            body_ = [cls["IfStatement"](branches=[CB(condition="H_c", body=[sv])], else_body=[])]
+        elif holder == "elif-branch":
+            body_ = [cls["IfStatement"](branches=[CB(condition="H_c", body=[S_]), CB(condition="H_d", body=[sv])], else_body=[])]
+        elif holder == "else":
+            body_ = [cls["IfStatement"](branches=[CB(condition="H_c", body=[S_])], else_body=[sv])]
+        elif holder == "try-body":
+            body_ = [cls["TryStatement"](try_body=[sv], handlers=[cls["CatchClause"](exception=None, target=None, body=[S_])])]
+        elif holder == "except-handler":
+            body_ = [cls["TryStatement"](try_body=[S_], handlers=[cls["CatchClause"](exception=None, target=None, body=[sv])])]
+        elif holder == "while-body":
+            body_ = [cls["WhileLoop"](condition="H_c", body=[sv])]
+        else:
+            body_ = [S_]
+            fns_ = [cls["FunctionDef"](name="f", params=[], body=[sv], return_type="void")]
+        prog = cls["Program"](setup_body=body_, loop_body=[], target_port=None, global_decls=[], helpers=set(), functions=fns_, ultrasonic_measurements=set())
+        try:
+            out = dl.Interp(im, extra_env=pe.ir_env()).call(crl, [prog])
+        except dl.Unsupported as e:
+            raise AnalysisError(f"_collect_required_libraries left the evaluable subset: {e}")
+        r.check(out.kind == "return" and isinstance(out.value, list) and "Servo" in out.value, f"libs/nested-declaration[{holder}]", (im, crl), f"a Servo declared in the {holder} is not seen by _collect_required_libraries -> {out!r}: platformio.ini would lack the library the sketch instantiates")
     return n
 
 
